@@ -859,3 +859,42 @@ mod fuzz_bytes_tests {
         assert_eq!(from_fuzz_chunks(&any::<u16>(), &[1u8; 20], 10).len(), 3);
     }
 }
+
+/// user + system time of this process in ms (/proc/self/stat, 100 ticks per second): the per-case
+/// watchdogs of C04 / C14 limit CPU time, because the wall clock of a case stretches arbitrarily
+/// when the machine is oversubscribed
+pub fn process_cpu_ms() -> Option<usize> {
+    let stat = std::fs::read_to_string("/proc/self/stat").ok()?;
+    let rest = &stat[stat.rfind(')')? + 2..];
+    let mut it = rest.split(' ');
+    let utime: usize = it.nth(11)?.parse().ok()?;
+    let stime: usize = it.next()?.parse().ok()?;
+    Some((utime + stime) * 10)
+}
+
+/// watchdog state machine shared by C04 / C14: `started` is the start stamp of the case in flight
+/// (0: none); returns true when the case has used more than `cpu_limit_ms` of CPU time since it was
+/// first seen, or more than `wall_limit_ms` of wall clock
+pub struct CaseWatch {
+    watched: usize,
+    cpu_at_first_sight: usize,
+}
+
+impl CaseWatch {
+    pub fn new() -> Self {
+        CaseWatch { watched: 0, cpu_at_first_sight: 0 }
+    }
+    pub fn over(&mut self, started: usize, now_ms: usize, cpu_limit_ms: usize, wall_limit_ms: usize) -> bool {
+        if started == 0 {
+            self.watched = 0;
+            return false;
+        }
+        let cpu = process_cpu_ms();
+        if started != self.watched {
+            self.watched = started;
+            self.cpu_at_first_sight = cpu.unwrap_or(0);
+            return false;
+        }
+        matches!(cpu, Some(c) if c > self.cpu_at_first_sight + cpu_limit_ms) || now_ms > started + wall_limit_ms
+    }
+}
